@@ -35,7 +35,7 @@ func newHEnv() *hEnv {
 	e := &hEnv{vEnv: newVEnv(types.StoreKey, hHeight, hDenom, hOther)}
 	e.bank.modules[types.ModuleName] = []string{authtypes.Minter, authtypes.Burner}
 	e.deputy, e.user, e.other = vAddr(5), vAddr(1), vAddr(2)
-	e.k = Keeper{storeKey: e.key, cdc: e.cdc, accountKeeper: e.acc, bankKeeper: e.bank, blockedAddrs: e.bank.blocked, authority: vAddr(9).String()}
+	e.k = NewKeeper(e.cdc, e.key, e.acc, e.bank, vAddr(9).String()) // the app's own constructor
 	zero, w := big.NewInt(0), verifPow2(64)
 	e.asset = types.AssetParam{
 		Denom: hDenom,
@@ -320,7 +320,8 @@ func VerifC03_Refund() {
 func VerifC04_PeriodClock() {
 	verifExpect("advanced", "reset")
 	e := &hEnv{vEnv: newVEnv(types.StoreKey, hHeight, hDenom, hOther)}
-	e.k = Keeper{storeKey: e.key, cdc: e.cdc, accountKeeper: e.acc, bankKeeper: e.bank, blockedAddrs: e.bank.blocked, authority: vAddr(9).String()}
+	e.bank.modules[types.ModuleName] = []string{authtypes.Minter, authtypes.Burner}
+	e.k = NewKeeper(e.cdc, e.key, e.acc, e.bank, vAddr(9).String()) // the app's own constructor
 	e.deputy = vAddr(5)
 	zero, w := big.NewInt(0), verifPow2(64)
 	denoms := []string{"htltaaa", "htltbbb"}
